@@ -80,7 +80,7 @@ Swap(sq, i, j) == [ x \in DOMAIN sq |-> IF x = i THEN sq[j] ELSE IF x = j THEN s
 ElimCol(sys, i) ==          \* sys = [A, b, ok]
     IF ~sys.ok THEN sys
     ELSE LET cand == { j \in i .. Len(sys.A) : i \in sys.A[j] }
-         IN  IF cand = {} THEN [sys EXCEPT !.ok = FALSE]
+         IN  IF cand = {} THEN [sys EXCEPT !.ok = FALSE, !.failcol = i]
              ELSE LET j  == Min(cand)
                       A1 == Swap(sys.A, i, j)
                       b1 == Swap(sys.b, i, j)
@@ -93,7 +93,7 @@ ElimCol(sys, i) ==          \* sys = [A, b, ok]
                                 ELSE IF x \in below /\ b1[i] # NoVal
                                      THEN (IF b1[x] = NoVal THEN b1[i] ELSE SymDiff(b1[x], b1[i]))
                                      ELSE b1[x] ]
-                  IN  [A |-> A2, b |-> b2, ok |-> TRUE]
+                  IN  [A |-> A2, b |-> b2, ok |-> TRUE, piv |-> Append(sys.piv, j), failcol |-> 0]
 
 BackSub(sys, q) ==          \* returns [x : 1..q -> value, nulldest : BOOLEAN]
     LET step(acc, i) ==     \* i runs q .. 1
@@ -106,21 +106,21 @@ BackSub(sys, q) ==          \* returns [x : 1..q -> value, nulldest : BOOLEAN]
     IN  FoldLeft(step, [x |-> [ i \in 1 .. q |-> {} ], nulldest |-> FALSE], [ t \in 1 .. q |-> q + 1 - t ])
 
 FinishRec(p, st0, perm) ==
-    IF IsComplete(p, st0) THEN [st |-> st0, status |-> OK, nulldest |-> FALSE, badindex |-> FALSE, stage |-> "already"]
+    IF IsComplete(p, st0) THEN [st |-> st0, status |-> OK, nulldest |-> FALSE, badindex |-> FALSE, stage |-> "already", piv |-> <<>>, dims |-> <<0, 0>>]
     ELSE
     LET st1  == InjectAll(p, Prepare(p, st0), perm)
         cols == SetToSortSeq({ c \in 0 .. (N(p) - 1) : ColRows(st1, EsiOf(p, c)) # {} }, LAMBDA a, b : a < b)
         rows == SetToSortSeq({ rw \in Rows(p) : RowMembers(st1, rw) # {} }, LAMBDA a, b : a < b)
         q    == Len(cols)
-    IN  IF q = 0 THEN [st |-> st1, status |-> FAILURE, nulldest |-> FALSE, badindex |-> FALSE, stage |-> "empty"]
-        ELSE IF Len(rows) < q THEN [st |-> st1, status |-> FAILURE, nulldest |-> FALSE, badindex |-> FALSE, stage |-> "fewrows"]
+    IN  IF q = 0 THEN [st |-> st1, status |-> FAILURE, nulldest |-> FALSE, badindex |-> FALSE, stage |-> "empty", piv |-> <<>>, dims |-> <<Len(rows), 0>>]
+        ELSE IF Len(rows) < q THEN [st |-> st1, status |-> FAILURE, nulldest |-> FALSE, badindex |-> FALSE, stage |-> "fewrows", piv |-> <<>>, dims |-> <<Len(rows), q>>]
         ELSE
         LET colpos(esi) == CHOOSE j \in 1 .. q : cols[j] = ColOf(p, esi)
             A0   == [ i \in 1 .. Len(rows) |-> { colpos(e) : e \in RowMembers(st1, rows[i]) } ]
             b0   == [ i \in 1 .. Len(rows) |-> st1.ct[rows[i]] ]
-            sys  == FoldLeft(ElimCol, [A |-> A0, b |-> b0, ok |-> TRUE], [ i \in 1 .. q |-> i ])
+            sys  == FoldLeft(ElimCol, [A |-> A0, b |-> b0, ok |-> TRUE, piv |-> <<>>, failcol |-> 0], [ i \in 1 .. q |-> i ])
         IN  IF ~sys.ok THEN [st |-> [st1 EXCEPT !.ct = [ rw \in Rows(p) |-> IF RowMembers(st1, rw) # {} THEN NoVal ELSE st1.ct[rw] ]],
-                             status |-> FAILURE, nulldest |-> FALSE, badindex |-> FALSE, stage |-> "singular"]
+                             status |-> FAILURE, nulldest |-> FALSE, badindex |-> FALSE, stage |-> "singular", piv |-> Append(sys.piv, -sys.failcol), dims |-> <<Len(rows), q>>]
             ELSE
             LET sol    == BackSub(sys, q)
                 nrepml == p.r - st1.nrep                      \* "number of repair found in ML"
@@ -130,7 +130,7 @@ FinishRec(p, st0, perm) ==
                               IF e \in Src(p) /\ st1.tab[e] = NoVal /\ ~bad
                               THEN sol.x[nrepml + (CHOOSE t \in DOMAIN holes : holes[t] = e)]
                               ELSE st1.tab[e] ]
-            IN  [ st |-> [st1 EXCEPT !.tab = tab2, !.M = {}], status |-> OK, nulldest |-> sol.nulldest, badindex |-> bad, stage |-> "ge" ]
+            IN  [ st |-> [st1 EXCEPT !.tab = tab2, !.M = {}], status |-> OK, nulldest |-> sol.nulldest, badindex |-> bad, stage |-> "ge", piv |-> sys.piv, dims |-> <<Len(rows), q>> ]
 
 Perms(p) ==   \* a few permutations of 0..r-1 as sequences: identity, reverse, rotation, interleaved
     LET r == p.r
